@@ -82,6 +82,9 @@ func (b *encryptionBlockV2) CodecDecodeSelf(d *codec.Decoder) {
 }
 
 func (h *EncryptionHeader) validate(versionValidator func(Version) error) error {
+	if h.FormatName != FormatName {
+		return ErrNotASaltpackMessage
+	}
 	if h.Type != MessageTypeEncryption {
 		return ErrWrongMessageType{MessageTypeEncryption, h.Type}
 	}
@@ -100,6 +103,9 @@ type signcryptionBlock struct {
 }
 
 func (h *SigncryptionHeader) validate() error {
+	if h.FormatName != FormatName {
+		return ErrNotASaltpackMessage
+	}
 	if h.Type != MessageTypeSigncryption {
 		return ErrWrongMessageType{MessageTypeSigncryption, h.Type}
 	}
@@ -140,6 +146,9 @@ func newSignatureHeader(version Version, sender SigningPublicKey, msgType Messag
 }
 
 func (h *SignatureHeader) validate(versionValidator VersionValidator, msgType MessageType) error {
+	if h.FormatName != FormatName {
+		return ErrNotASaltpackMessage
+	}
 	if err := versionValidator(h.Version); err != nil {
 		return err
 	}
